@@ -16,6 +16,7 @@
 #include <rfb/rfb.h>
 #include <rfb/rfbregion.h>
 #include "private.h"
+#include "scale.h"
 
 #include <stdarg.h>
 #include <errno.h>
@@ -282,10 +283,21 @@ void rfbScheduleCopyRegion(rfbScreenInfoPtr rfbScreen,sraRegionPtr copyRegion,in
    rfbClientIteratorPtr iterator;
    rfbClientPtr cl;
 
+   /* the scaled copies of the framebuffer follow it: the destination of the copy has new contents */
+   if(rfbScreen->scaledScreenNext) {
+     sraRectangleIterator* i=sraRgnGetIterator(copyRegion);
+     sraRect rect;
+     while(sraRgnIteratorNext(i,&rect))
+       rfbScaledScreenUpdate(rfbScreen,rect.x1,rect.y1,rect.x2,rect.y2);
+     sraRgnReleaseIterator(i);
+   }
+
    iterator=rfbGetClientIterator(rfbScreen);
    while((cl=rfbClientIteratorNext(iterator))) {
      LOCK(cl->updateMutex);
-     if(cl->useCopyRect) {
+     /* a scaled client gets the pixels: a displacement that is not a multiple of its block
+      * size has no exact CopyRect in the scaled picture */
+     if(cl->useCopyRect && cl->scaledScreen==cl->screen) {
        sraRegionPtr modifiedRegionBackup;
        if(!sraRgnEmpty(cl->copyRegion)) {
 	  if(cl->copyDX!=dx || cl->copyDY!=dy) {
@@ -357,6 +369,11 @@ void rfbScheduleCopyRegion(rfbScreenInfoPtr rfbScreen,sraRegionPtr copyRegion,in
        }
 
      } else {
+       if(!sraRgnEmpty(cl->copyRegion)) {
+	  /* scheduled before the client changed to a scaled view */
+	  sraRgnOr(cl->modifiedRegion,cl->copyRegion);
+	  sraRgnMakeEmpty(cl->copyRegion);
+       }
        sraRgnOr(cl->modifiedRegion,copyRegion);
      }
      TSIGNAL(cl->updateCond);
